@@ -151,7 +151,6 @@ func (c *Ctx) err1() {
 			byKey[key] = append(byKey[key], o)
 		}
 		for _, key := range keys {
-			n++
 			var bad *origin
 			all := map[string]bool{}
 			alts := map[string]bool{}
@@ -169,6 +168,7 @@ func (c *Ctx) err1() {
 					bad = o
 				}
 			}
+			n += len(alts) // (one producing expression that serves several causes counts once per cause)
 			o := byKey[key][0]
 			if bad == nil {
 				c.S.OK("ERR-1", key, o.Site, t.name, fmt.Sprintf("each of its %d alternative(s) has a documented class; classes seen {%s}", len(alts), classList(all)), true)
